@@ -298,7 +298,7 @@ func generate(family string, rng *rand.Rand, thorough bool) []plan {
 				&Stage{Kind: "join", N: 2},
 				&Stage{Kind: "join", N: []int{0, 1, 3}[rng.Intn(3)]}, // also no input at all: the output closes at once
 				&Stage{Kind: "unfold", N: rng.Intn(3), Seed: rng.Intn(3), A: 2, B: 1},
-				&Stage{Kind: "emit", N: rng.Intn(3), Freq: []int{1, 3, 10}[rng.Intn(3)], A: 1, B: 0},
+				&Stage{Kind: "emit", N: rng.Intn(3), Freq: []int{0, 1, 3, 10}[rng.Intn(4)], A: 1, B: 0}, // also no pause at all
 				&Stage{Kind: "throttle", Ops: rng.Intn(3) + 1, Freq: rng.Intn(5) + 2},
 				&Stage{Kind: "map", A: 1, B: 1, Fail: &Fail{Kind: "modeq", M: 3, R: 1}, Try: rng.Intn(2) == 0},
 				&Stage{Kind: "fmap", M: 3, Fail: &Fail{Kind: "modeq", M: 4, R: 1}, Try: rng.Intn(2) == 0},
@@ -484,6 +484,41 @@ func generate(family string, rng *rand.Rand, thorough bool) []plan {
 				}
 			}
 		}
+		// every fork stage with a consumer that never comes: more elements than the outputs can hold are handed over,
+		// every in-flight call completes, the workers are parked in their sends when the cancel arrives (before or after
+		// the close of the input) - all of them exit and everything closes
+		for rep := 0; rep < 2*mul; rep++ {
+			for _, par := range []int{1, 2, 4} {
+				for _, inner := range []*Stage{
+					{Kind: "map", A: 2, B: 1}, {Kind: "fmap", M: 2}, {Kind: "filter", Pred: &Pred{Kind: "true"}},
+					{Kind: "partition", Pred: preds(rng)}, {Kind: "foreach"}, {Kind: "void"},
+					{Kind: "map", A: 1, B: 0, Fail: &Fail{Kind: "modeq", M: 2, R: 0}, Try: true},
+				} {
+					gate := rep%2 == 0 && inner.Kind != "void"
+					n := 2*par + 2 + rng.Intn(3)
+					in := distinctInput(rng, n)
+					var sc []intent
+					for j := 0; j < n; j++ {
+						sc = append(sc, intent{kind: "send", i: 0})
+						if gate {
+							sc = append(sc, intent{kind: "release-any", i: rng.Intn(4)})
+						}
+					}
+					for j := 0; j < 2*n && gate; j++ {
+						sc = append(sc, intent{kind: "release-any", i: rng.Intn(4)})
+					}
+					if rng.Intn(2) == 0 {
+						sc = append(sc, intent{kind: "cancel"}, intent{kind: "close", i: 0})
+					} else {
+						sc = append(sc, intent{kind: "close", i: 0}, intent{kind: "cancel"})
+					}
+					for j := 0; j < 2*n && gate; j++ {
+						sc = append(sc, intent{kind: "release-any", i: rng.Intn(4)})
+					}
+					add(plan{stage: &Stage{Kind: "fork", Par: par, Gate: gate, Inner: inner}, icaps: []int{n}, inputs: [][]int{in}, sched: &scripted{script: sc}, maxMoves: 100, drain: false, gen: "absent-consumer"})
+				}
+			}
+		}
 		// fail-fast (Lift / LiftF) inside fork.Map / fork.FMap with SEVERAL failing elements: every worker that meets
 		// one sends its error with a plain `exx <- err` and returns. Nothing may block, leak or stay open - whether
 		// the errors are read (random schedules, drained) or nobody ever receives again (absent consumer + cancel).
@@ -640,6 +675,25 @@ func generate(family string, rng *rand.Rand, thorough bool) []plan {
 				sc = append(sc, intent{kind: "send", i: 0}, intent{kind: "recv", k: 0}, intent{kind: "recv", k: 0})
 			}
 			add(plan{stage: s, icaps: []int{cp}, inputs: [][]int{in}, sched: &scripted{script: sc}, maxMoves: 80, drain: true, gen: "idle-then-burst"})
+			// the consumer stalls while input is available (the input buffer, the token bucket and everything in
+			// between fill up), then drains as fast as it can
+			var stl []intent
+			for j := 0; j < len(in); j++ {
+				stl = append(stl, intent{kind: "send", i: 0})
+			}
+			stl = append(stl, intent{kind: "sleep", d: (cp/ops + 4) * iv})
+			for j := 0; j < 3*len(in); j++ {
+				stl = append(stl, intent{kind: "send", i: 0}, intent{kind: "recv", k: 0})
+			}
+			add(plan{stage: s, icaps: []int{cp}, inputs: [][]int{in}, sched: &scripted{script: stl}, maxMoves: 200, drain: true, gen: "idle-then-burst: consumer stall"})
+			// everything delivered, a long silence, then the input closes: the output closes with it
+			var idc []intent
+			few := in[:min(len(in), 3)]
+			for j := 0; j < len(few); j++ {
+				idc = append(idc, intent{kind: "send", i: 0}, intent{kind: "sleep", d: iv}, intent{kind: "recv", k: 0})
+			}
+			idc = append(idc, intent{kind: "sleep", d: 5 * iv}, intent{kind: "close", i: 0}, intent{kind: "sleep", d: 1}, intent{kind: "recv", k: 0})
+			add(plan{stage: s, icaps: []int{cp}, inputs: [][]int{few}, sched: &scripted{script: idc}, maxMoves: 60, drain: false, gen: "idle-then-close"})
 			// steady: input always available, consumer always ready; one virtual tick per round
 			var st []intent
 			for r := 0; r < (len(in)/ops+2)*iv; r++ {
